@@ -278,7 +278,8 @@ theorem sync_logWritten (db : DB) (inv : DiskInv db) (hp : db.pending.isEmpty = 
       (L.datIdx = db.datIdx ∧ L.verSeq = db.verSeq ∧ L.dataSeq = db.dataSeq ∧ L.fs.idx0 = db.fs.idx0 ∧
         L.fs.idx1 = db.fs.idx1 ∧
         diskIndex L.fs = applyEntriesL (diskIndex db.fs)
-          ((syncPlan db.dataSeq db.index db.pending (checkDat db).lastPos).2.1.map stripE)) := by
+          ((syncPlan db.dataSeq db.index db.pending (checkDat db).lastPos).2.1.map stripE) ∧
+        L = logWritten (db.pending.foldl syncKey (checkDat db, [])).1 (db.pending.foldl syncKey (checkDat db, [])).2) := by
   obtain ⟨c_open, c_same, c_new, c_i0, c_i1, c_log, c_ds, c_vs, c_lo, c_pe, c_ix, c_di⟩ := checkDat_post db
   -- the data file after checklogfile
   have hfile0 : ∃ f0, dlookup db.dataSeq (checkDat db).fs.dats = some f0 ∧ (checkDat db).lastPos = f0.length ∧
@@ -355,7 +356,7 @@ theorem sync_logWritten (db : DB) (inv : DiskInv db) (hp : db.pending.isEmpty = 
       rw [l_log, hvs', encLog_append]
     exact ⟨l_di.trans (r_di.trans c_di), l_vs.trans hvs', l_ds.trans (r_ds.trans c_ds), hidx0', hidx1',
       (diskIndex_log_append db.fs (logWritten d' (encLog plan.2.1)).fs db.verSeq E plan.2.1
-        hEst inv.ver inv.verlt hEfit hfits2' hidx0' hidx1' hlogL').1⟩
+        hEst inv.ver inv.verlt hEfit hfits2' hidx0' hidx1' hlogL').1, by rw [hfold]⟩
   · -- sync db unfolds to this
     unfold sync
     rw [if_neg (by simp [inv.nv]), if_neg (by simp [hp])]
